@@ -258,6 +258,10 @@ pub fn hostile_single(rep: &mut Report, seed: u64, idx: u64, script: Option<Vec<
         _ => cfg.period,
     }
     .max(1);
+    if cfg!(miri) {
+        // (the interpreter manages about a hundred polls per second)
+        cfg.period = cfg.period.max(cfg.tslot() / 8);
+    }
     rep.evaluations += 1;
     let app = make_app(app_kind, &mut rng, cfg.ts);
     let script: Vec<u8> = script.unwrap_or_else(|| (0..1 + rng.usize(300)).map(|_| rng.below(N_ACT) as u8).collect());
@@ -616,7 +620,9 @@ pub fn c05(ctx: &mut Ctx) {
         hostile_dp(&mut ctx.rep, seed, i, false);
     }
     // (c) rings under fault plans: only panics / hangs / contract breaches are judged here
-    let n = ctx.n(1500, 60_000, 1);
+    // (not under Miri: a multi-station ring run to convergence takes the interpreter an hour, and it is the
+    //  same FDL code as in (a))
+    let n = if ctx.tier == Tier::Miri { 0 } else { ctx.n(1500, 60_000, 1) };
     for k in 0..n {
         if ctx.over_budget() {
             break;
